@@ -160,7 +160,33 @@ pub fn check(ctx: &NetCtx, f: &F, rich: bool) -> (u64, u64, Vec<String>) {
             break;
         }
     }
-    (distinct + 1, distinct, bad)
+    // the self-loop-free entry point has its own parse-and-preprocess pipeline: the same rewrites (all of them for small
+    // formulae, the renamings for the others) must not change ITS answer either
+    let mut extra = 0u64;
+    if !ext && bad.is_empty() {
+        let unsafe_ex = |t: &str| ctx.run(|| biodivine_hctl_model_checker::model_checking::model_check_formula_unsafe_ex(t, &ctx.b.graph));
+        if let Got::Set(ub) = unsafe_ex(&canon) {
+            let mut seen2 = std::collections::HashSet::new();
+            for (desc, text) in &rw {
+                if (f.size() > 3 && !desc.starts_with("rename")) || !seen2.insert(text.clone()) {
+                    continue;
+                }
+                extra += 1;
+                match unsafe_ex(text) {
+                    Got::Set(s) if s == ub => {}
+                    Got::Set(_) => bad.push(format!("{desc}: {text:?} through model_check_formula_unsafe_ex gives a different set than {canon}")),
+                    Got::Err(e) => bad.push(format!("{desc}: {text:?} is rejected by model_check_formula_unsafe_ex: {e}")),
+                    Got::Panic(p) => bad.push(format!("{desc}: {text:?} through model_check_formula_unsafe_ex panics: {p}")),
+                }
+                if bad.len() > 3 {
+                    break;
+                }
+            }
+        } else {
+            bad.push(format!("canonical text {canon} does not evaluate through model_check_formula_unsafe_ex"));
+        }
+    }
+    (distinct + 1 + extra, distinct, bad)
 }
 
 pub fn replay(case: &Value) -> Option<String> {
@@ -314,7 +340,7 @@ pub fn run(tier: &str) -> Result<Report, String> {
     }
     rep.evaluations = total_rewrites;
     rep.distinct_nontrivial = distinct_rewrites;
-    rep.rule = format!("for every closed plain formula with <= {m} nodes, every template formula, the family Q1{{x}}: ((Q2{{y}}: A) op B) and its jump version @{{x}}: ((@{{y}}: A) op B), all chains of two binary operators in both association orders, duplicate templates and every extended formula with <= 3 nodes, on {which:?} (and every closed formula with <= 3 (4) nodes on seven networks whose variable names look like operators / constants / spare variables / each other's prefixes: EF1, TRUE, EGFR, AXIN, AUX1, Ca_extra_cell, x / xx, a / ab): all scope-respecting assignments of the names {POOL:?} to its binders (consistent renaming incl. permutations of the internal names x, xx, xxx) and of the names {ODD_POOL:?} and {KEYWORD_POOL:?}, renamings of binders to the names of network variables, whitespace patterns (none where legal, double, tab, newline, NBSP, mixed; everywhere and at each single token boundary), 1-2 redundant parentheses around each sub-formula and around all, the minimal-parentheses rendering and the minimal rendering with one sub-formula keeping its parentheses, long spellings of each/all hybrid operators, constant spellings; the rewritten text must evaluate (model_check_formula / model_check_extended_formula_dirty) to the same set as the canonical text. distinct_nontrivial = number of rewritten texts that differ from the canonical text and from each other (per formula and network), counted with a hash set; evaluations additionally counts the canonical text");
+    rep.rule = format!("for every closed plain formula with <= {m} nodes, every template formula, the family Q1{{x}}: ((Q2{{y}}: A) op B) and its jump version @{{x}}: ((@{{y}}: A) op B), all chains of two binary operators in both association orders, duplicate templates and every extended formula with <= 3 nodes, on {which:?} (and every closed formula with <= 3 (4) nodes on seven networks whose variable names look like operators / constants / spare variables / each other's prefixes: EF1, TRUE, EGFR, AXIN, AUX1, Ca_extra_cell, x / xx, a / ab): all scope-respecting assignments of the names {POOL:?} to its binders (consistent renaming incl. permutations of the internal names x, xx, xxx) and of the names {ODD_POOL:?} and {KEYWORD_POOL:?}, renamings of binders to the names of network variables, whitespace patterns (none where legal, double, tab, newline, NBSP, mixed; everywhere and at each single token boundary), 1-2 redundant parentheses around each sub-formula and around all, the minimal-parentheses rendering and the minimal rendering with one sub-formula keeping its parentheses, long spellings of each/all hybrid operators, constant spellings; the rewritten text must evaluate (model_check_formula / model_check_extended_formula_dirty, and for plain formulae also model_check_formula_unsafe_ex compared with itself) to the same set as the canonical text. distinct_nontrivial = number of rewritten texts that differ from the canonical text and from each other (per formula and network), counted with a hash set; evaluations additionally counts the canonical text");
     rep.assumptions.push("the rewrite generator only produces meaning-preserving variants by construction (consistent renaming respecting scopes, whitespace only between tokens, balanced extra parentheses)".into());
     Ok(rep)
 }
